@@ -46,6 +46,7 @@ type Scenario struct {
 	Backlog    bool     `json:"backlog,omitempty"`
 	Feed       int      `json:"feed,omitempty"`
 	Restart    bool     `json:"restart,omitempty"`
+	LastRound  int      `json:"lastround,omitempty"`
 	Raw        bool     `json:"raw,omitempty"`
 	StartReg   bool     `json:"startreg,omitempty"`
 	OpenStart  bool     `json:"openstart,omitempty"`
@@ -204,6 +205,12 @@ func scenarios(c *lib.Ctx, rng *rand.Rand) []Scenario {
 	for _, n := range []int{2, 4} {
 		scs = append(scs, Scenario{Channels: []string{"ov"}, Tracks: oneVideoTracks(n), Overlap: true, Rounds: rounds / 2})
 		scs = append(scs, Scenario{Channels: []string{"ovi"}, Tracks: oneVideoTracks(n), Overlap: true, ReInit: true, Rounds: rounds / 2})
+	}
+	// init segments sent again while the last number of every track is uploaded: nothing follows that would bring a
+	// timeline MPD up to date that was left behind
+	for _, n := range []int{2, 5, 8} {
+		scs = append(scs, Scenario{Channels: []string{"lr"}, Tracks: oneVideoTracks(n), LastRound: 1, Rounds: rounds / 2})
+		scs = append(scs, Scenario{Channels: []string{"lrp"}, Tracks: oneVideoTracks(n), LastRound: 2, Rounds: rounds / 2})
 	}
 	// more messages outstanding than the channel's queue holds while the channel goroutine waits for the MPD mutex
 	for _, n := range []int{6, 8} {
@@ -536,6 +543,12 @@ func run(c *lib.Ctx) error {
 		if sc.Backlog {
 			nUp = 6 * len(sc.Tracks)
 		}
+		if sc.LastRound > 0 {
+			nUp = 5*len(sc.Tracks) + 1
+			if sc.LastRound == 2 {
+				nUp = 6 * len(sc.Tracks)
+			}
+		}
 		if sc.Feed > 0 {
 			nUp = (1 + sc.Feed) * len(sc.Channels) * len(sc.Tracks)
 		}
@@ -566,11 +579,11 @@ func run(c *lib.Ctx) error {
 			c.Fail(id, "upload-refused", fmt.Sprintf("statuses %v for %d uploads", o.Statuses, nUp), sc)
 			continue
 		}
-		if sc.Feed > 0 && !sc.Sequential {
+		if (sc.Feed > 0 || sc.LastRound > 0) && !sc.Sequential {
 			if r, ok := ref[o.Scenario+1]; ok {
 				for _, ch := range sc.Channels {
 					if strings.Join(o.MPDTrace[ch], " | ") != strings.Join(r.MPDTrace[ch], " | ") {
-						c.Fail(id, "mpd-differs-from-sequential", fmt.Sprintf("channel %s fed together with %d other channels: its timeline MPD after each number was %v; fed alone in turn: %v", ch, len(sc.Channels)-1, o.MPDTrace[ch], r.MPDTrace[ch]), sc)
+						c.Fail(id, "mpd-differs-from-sequential", fmt.Sprintf("channel %s (uploads of %d channels at the same time, every one answered 200): its timeline MPD after each number / at the end was %v; the same uploads in turn: %v", ch, len(sc.Channels), o.MPDTrace[ch], r.MPDTrace[ch]), sc)
 						break
 					}
 				}
